@@ -111,12 +111,24 @@ func schedSingle(r *world.Rng, w *world.World) {
 
 func schedMulti(r *world.Rng, w *world.World) {
 	w.Sched = world.Sched{Seed: r.Next(), Strategy: r.PickS("random", "random", "sticky", "pct"), Burst: r.Pick(1, 2, 5, 20, 100, 1000)}
+	w.Sched.JumpProb = []float64{0, 0, 0.02, 0.1, 0.3}[r.Intn(5)]
 	if w.Sched.Strategy == "pct" {
 		w.Sched.PCTDepth = r.Range(1, 5)
 	}
 }
 
 func delays(r *world.Rng) []int64 {
+	if r.Bool(0.25) {
+		// late for a bounded amount of the others' progress (scheduler decisions), at some receives only
+		n := r.Range(2, 8)
+		d := make([]int64, n)
+		for i := range d {
+			if r.Bool(0.35) {
+				d[i] = -int64(r.Pick(2, 5, 20, 100, 500))
+			}
+		}
+		return d
+	}
 	switch r.Intn(5) {
 	case 0:
 		return nil
@@ -1045,7 +1057,7 @@ func genC20(r *world.Rng, w *world.World, big bool) {
 			cs = append(cs, topVarClause(r, n))
 		}
 		t = world.TaskSpec{Kind: "opt", N: n, Cons: cs, Route: route, Entry: "optimal-chan"}
-		if r.Bool(0.35) {
+		if r.Bool(0.6) {
 			cn, ccs, ccost := covering(r, 10)
 			for i := range ccs {
 				ccs[i].Op = ">="
@@ -1082,11 +1094,22 @@ func genC20(r *world.Rng, w *world.World, big bool) {
 	}
 	t.Cap = capacity(r)
 	t.Delays = delays(r)
+	if t.Kind == "opt" && r.Bool(0.5) {
+		// a buffered channel and a consumer that falls behind for a while at some receives, then catches up
+		t.Cap = r.Pick(1, 1, 2, 3)
+		n := r.Range(3, 8)
+		t.Delays = make([]int64, n)
+		for i := range t.Delays {
+			if r.Bool(0.4) {
+				t.Delays[i] = -int64(r.Pick(3, 10, 40, 150, 600))
+			}
+		}
+	}
 	t.Stop = t.Kind == "opt" && r.Bool(0.15)
 	w.Tasks = []world.TaskSpec{t}
 	knobs(r, w)
 	schedMulti(r, w)
-	w.Sched.Burst = r.Pick(1, 3, 10, 50)
+	w.Sched.Burst = r.Pick(1, 3, 10, 50, 300, 2000)
 }
 
 // ---- C16 --------------------------------------------------------------------------
